@@ -138,9 +138,11 @@ Section Origin.
   Proof.
     intros HB. unfold kvs_delete_tree. destruct (bool_decide _); [exact HB|].
     apply set_index_B.
-    assert (H1 : B (s <| kvs ::= filter (fun kv => has_prefix p kv.1 = false) |>)).
+    assert (H1 : B (s <| kvs ::= filter (fun kv => has_prefix p kv.1 = false) |>
+                      <| tombs ::= filter (fun kt => has_prefix p kt.1 = false) |>)).
     { destruct HB as (Hk & Ht & Hs & Hn & Hv & Hc & Hi). bsplit; cbn; try assumption.
-      apply mf_filter. exact Hk. }
+      - apply mf_filter. exact Hk.
+      - apply mf_filter. exact Ht. }
     destruct (bool_decide (p = "")); [exact H1|].
     apply set_index_B. destruct H1 as (Hk & Ht & Hs & Hn & Hv & Hc & Hi). cbn in *; bsplit; cbn; try assumption. apply mf_insert; assumption.
   Qed.
